@@ -78,7 +78,7 @@ def explore(res: UnitResult, pid: str, name: str, fn: Callable[[D.Ctl, Any], Any
             res.inconclusive.append("%s: %d replay mismatches (hidden nondeterminism)" % (name, st["mismatches"]))
         return
     est = 60
-    est_stall = 40
+    est_stall = {"lib": 40, "all": 40}
     for i in range(runs):
         rng = random.Random("%s|%s|%s|%s|%d" % (seed, pid, name, show(params), i))
         if mode == "pct":
@@ -91,8 +91,9 @@ def explore(res: UnitResult, pid: str, name: str, fn: Callable[[D.Ctl, Any], Any
             st = D.RandomStrategy(rng, rng.choice(p_choices))
         c = D.run(scen, st)
         est = max(est, len(c.decisions))
-        if mode == "stall":
-            est_stall = max(est_stall, st.n)
+        if mode == "stall" and st.n:
+            # running estimate of the number of eligible points of a run, per class of run
+            est_stall["lib" if st.lib_only else "all"] = st.n
         _record(res, pid, name, params, c, mode, on_failed)
 
 
